@@ -990,6 +990,11 @@ func (s *scanner) PeekN(n int) ([]byte, error) {
 	}
 
 	if s.pos+n > s.used {
+		if err == nil && s.err != nil {
+			// the source failed after a short read: what is missing is
+			// not the end of the data
+			err = s.err
+		}
 		return s.buf[s.pos:s.used], err
 	}
 
